@@ -529,7 +529,7 @@ func Seq(t *rapid.T, c *Cfg, max int) []model.Value {
 	for i := 0; i < n; i++ {
 		out = append(out, Value(t, c))
 	}
-	return out
+	return SanitizeTop(out)
 }
 
 // Deep draws a value nested depth levels (list/sexp/struct chain) around a scalar.
@@ -546,4 +546,54 @@ func Deep(t *rapid.T, depth int) model.Value {
 		}
 	}
 	return v
+}
+
+// ---- top-level domain restrictions
+
+var ivmShaped = func(s string) bool {
+	// $ion_<digits>_<digits>
+	if len(s) < 8 || s[:5] != "$ion_" {
+		return false
+	}
+	rest := s[5:]
+	i := 0
+	for i < len(rest) && rest[i] >= '0' && rest[i] <= '9' {
+		i++
+	}
+	if i == 0 || i >= len(rest) || rest[i] != '_' {
+		return false
+	}
+	j := i + 1
+	for j < len(rest) && rest[j] >= '0' && rest[j] <= '9' {
+		j++
+	}
+	return j > i+1 && j == len(rest)
+}
+
+// IVMShaped reports whether s looks like an Ion version marker symbol.
+func IVMShaped(s string) bool { return ivmShaped(s) }
+
+// IsSystemValue reports whether a top-level value would be taken by Ion as a
+// system value rather than user data: a struct (or null.struct) whose first
+// annotation is $ion_symbol_table, or an unannotated symbol shaped like a
+// version marker. Such values are outside every writer's user-value domain.
+func IsSystemValue(v model.Value) bool {
+	if v.Kind == model.Struct && len(v.Ann) > 0 && v.Ann[0].Known && v.Ann[0].Text == "$ion_symbol_table" {
+		return true
+	}
+	if v.Kind == model.Symbol && !v.IsNull && len(v.Ann) == 0 && v.Sym.Known && ivmShaped(v.Sym.Text) {
+		return true
+	}
+	return false
+}
+
+// SanitizeTop rewrites top-level system values into user values (prepends an
+// annotation) so that sequences stay inside the user-value domain.
+func SanitizeTop(vals []model.Value) []model.Value {
+	for i := range vals {
+		if IsSystemValue(vals[i]) {
+			vals[i].Ann = append([]model.Sym{model.S("u")}, vals[i].Ann...)
+		}
+	}
+	return vals
 }
